@@ -650,11 +650,25 @@ def M_or_default(ex, n, a):
     e = a[0]
     if isinstance(e, EntryV):
         if e.idx is not None: return Ref(e.m.entries[e.idx][1])
-        dv = ex.default_value(n) if hasattr(ex, 'default_value') else None
+        dv = default_for(n)
         if dv is None: raise Unmodelled(f'default value for {n}')
         map_insert(ex, e.m, e.key, dv)
         return Ref(e.m.entries[map_find(ex, e.m, e.key)][1])
     return NotImplemented
+
+
+def default_for(n):
+    """Default::default() of the value type named last in the generic arguments of an Entry method"""
+    m = re.search(r', ([^,<>]+|[^,]+<.*>)>::or_default$', n)
+    t = m.group(1).strip() if m else ''
+    mt = re.fullmatch(r'(u|i)(8|16|32|64|128|size)', t)
+    if mt: return Num(0, 64 if mt.group(2) == 'size' else int(mt.group(2)), mt.group(1) == 'i')
+    if t == 'bool': return False
+    if t.startswith('std::vec::Vec<'): return VecV([])
+    if t.startswith('std::option::Option<'): return none()
+    if re.match(r'std::collections::(BTreeMap|BTreeSet)<', t): return MapV([], True, 'set' if 'Set' in t else 'map')
+    if re.match(r'std::collections::(HashMap|HashSet)<', t): return MapV([], False, 'set' if 'Set' in t else 'map')
+    return None
 
 
 def M_or_insert(ex, n, a):
